@@ -569,7 +569,7 @@ pub fn history_strategy() -> impl Strategy<Value = History> {
     (gen::cfg_strategy(), any::<u64>(), any::<bool>(), -20i8..20).prop_flat_map(|(mut cfg, seed, otaa, snr)| {
         cfg.join_bias = None;
         let reg = Reg::from_name(cfg.region.name()).unwrap();
-        let class_c = matches!(cfg.front, FrontKind::AsyncClassC | FrontKind::AsyncQ1);
+        let class_c = matches!(cfg.front, FrontKind::AsyncClassC | FrontKind::AsyncQ1 | FrontKind::AsyncSeeded);
         let cmds = || prop_oneof![
             6 => proptest::collection::vec(prop_oneof![3 => valid_cmd(reg), 1 => gen::cmd_strategy(reg)], 1..=6),
             // enough requests for the answers to exceed the 15 bytes of FOpts
